@@ -119,6 +119,11 @@ Proof.
   - exact H.
   - cbn [fst]. unfold store_step. destruct (inflight s); [|exact H]. destruct (flushing s) as [[g fb]|]; [|exact H].
     destruct (nth_error fb (N.to_nat i)) as [[k v]|]; [|exact H]. eapply binv_frame; [exact H|..]; reflexivity.
+  - cbn [fst]. unfold complete_exist. destruct (inflight s) eqn:Ei; [|exact H].
+    eapply binv_frame; [apply (binv_complete s false H)|..]; reflexivity.
+  - cbn [fst]. unfold tm_start. destruct (_ && _); [|exact H]. eapply binv_frame; [exact H|..]; reflexivity.
+  - cbn [fst]. eapply binv_frame; [exact H|..]; reflexivity.
+  - exact H.
 Qed.
 
 Lemma binv_run P ops : forallb op_keys_ok ops = true -> binv (run P ops).
